@@ -333,6 +333,20 @@ class ProgramModel:
             self._pkg_functions = {k: v[0] for k, v in fs.items() if len(v) == 1}
         return lambda name: self._pkg_functions.get(name)
 
+    def package_class_method_finder(self):
+        """(class name, method name) -> the FunctionDef of a static / class method of a module-level class defined in exactly
+        one module of the package (`HourSplit.of(...)`: a helper that lives in a small record / namespace class)"""
+        if getattr(self, "_pkg_class_methods", None) is None:
+            cs = {}
+            for m, (r, t, _) in self.modules.items():
+                for c in t.body:
+                    if isinstance(c, ast.ClassDef):
+                        cs.setdefault(c.name, []).append(c)
+            self._pkg_class_methods = {
+                (k, f.name): f for k, v in cs.items() if len(v) == 1 for f in v[0].body
+                if isinstance(f, ast.FunctionDef) and (is_static(f) or is_classmethod(f))}
+        return lambda cn, name: self._pkg_class_methods.get((cn, name))
+
     def own_methods(self, cn):
         return [n for n in self.classes[cn].node.body if isinstance(n, ast.FunctionDef)]
 
